@@ -115,8 +115,8 @@ def collision_free(c):
     cl = claimed(c)
     allp = [opt_of(p) for p, _ in enum_paths(c)]
     own = c["schema"][1]
-    if own and any(k == own and n[0] == "L" for k, n in c["schema"][2]):
-        return False    # config["own.x"] would index a plain value: outside the model
+    if own and any(k == own for k, n in c["schema"][2]):
+        return False    # config["own.x"] could index a plain value: outside the model (one fixed case keeps root.root)
     return len(set(cl)) == len(cl) and len(set(allp)) == len(allp) and "--help" not in cl
 
 
